@@ -36,6 +36,10 @@ harness/cmd/extract-state on every run), and `ResetDiscipline table` says every 
   cached_process_outcome            | every Process answer of the CACHED machine, in any history, is `processAll`
                                     |   of the registry obtained by loading exactly the texts accepted before it
                                     |   (C18.process_outcome carried over: incremental = batch for the stateful value)
+  cached_process_idempotent,        | C18.process_idempotent / read_no_trace / failed_load_no_trace carried over to the
+  cached_read_no_trace,             |   stateful value - where a read DOES write hidden state (entry cache, memo
+  cached_failed_load_no_trace       |   entries with the current stamp) and a second run DOES find what the first left;
+                                    |   the last one for every kit and including the answers of reads outside the contract
   cached_failed_load_state_eq       | a refused load leaves the whole hidden state as it was
   forgot_clear_entry_cache_fails,   | the same machine with ONE reset dropped does not refine: a concrete
   forgot_generation_guard_fails,    |   history on the toy kit, by kernel evaluation (entry cache not emptied at
@@ -181,6 +185,64 @@ theorem cached_failed_load_state_eq (K : Kit) (t : List Field) (ht : ResetDiscip
     (cstep K (Policy.ofTable t) c (.load src)).1 = c := by
   rw [sound_eq (ResetDiscipline.sound ht)] at h ⊢
   exact cstep_rejected_state K c src w h
+
+/-- A load anywhere in a history of the cached machine that is answered `rejected`: cutting it out of
+the history changes no other answer - also not the answers of reads outside the contract, which the
+session model declines and which show hidden state - and not the final state, hidden state
+included.  (C18.failed_load_no_trace for the stateful value, for every kit.) -/
+theorem cached_failed_load_no_trace (K : Kit) (t : List Field) (ht : ResetDiscipline t = true) (c : CState K)
+    (pre post : List (SessionCached.Op K)) (src : K.Src) (w : K.Rej)
+    (h : (crunFrom K (Policy.ofTable t) c (pre ++ .load src :: post)).2[pre.length]? = some (.rejected w)) :
+    (crunFrom K (Policy.ofTable t) c (pre ++ .load src :: post)).1 = (crunFrom K (Policy.ofTable t) c (pre ++ post)).1 ∧
+    (crunFrom K (Policy.ofTable t) c (pre ++ .load src :: post)).2.eraseIdx pre.length =
+      (crunFrom K (Policy.ofTable t) c (pre ++ post)).2 := by
+  rw [sound_eq (ResetDiscipline.sound ht)] at h ⊢
+  exact crun_failed_load_no_trace K c pre post src w h
+
+/-- The hypothesis is met: a text refused at its second statement, at position 1 of a history on the toy kit. -/
+example : (crunFrom toy (Policy.ofTable Goyang.Gen.State.table) { reg := [], opts := () }
+    ([SessionCached.Op.load [1]] ++ .load [2, 1] :: [.process])).2[1]? = some (.rejected 1) := by decide +kernel
+
+/-- Processing twice: the cached machine answers the second run exactly as the first (C18.process_idempotent
+for the stateful value: the second run finds the entry cache, links, identity tables and memo the
+first one left). -/
+theorem cached_process_idempotent (plug : Registry → Plug) (opts : Opts) (h : List Goyang.Model.Op) :
+    ∃ o, (cachedRun plug opts (h ++ [.process, .process])).2[h.length]? = some (.processed o) ∧
+         (cachedRun plug opts (h ++ [.process, .process])).2[h.length + 1]? = some (.processed o) := by
+  have e1 := cached_process_outcome plug opts h [.process]
+  have e2 := cached_process_outcome plug opts (h ++ [.process]) []
+  have r1 := (Goyang.Props.C18.load_order_of_accepted_only plug opts h).1
+  have r2 := (Goyang.Props.C18.load_order_of_accepted_only plug opts (h ++ [.process])).1
+  have hr : (Session.after plug opts (h ++ [.process])).reg = (Session.after plug opts h).reg := by
+    simp only [Session.after, Goyang.Lemmas.Session.runFrom_append, Goyang.Lemmas.Session.runFrom_cons,
+      Goyang.Lemmas.Session.runFrom_nil, Goyang.Lemmas.Session.step_process]
+  rw [r1, r2] at hr
+  rw [List.append_assoc, List.singleton_append, List.length_append, List.length_singleton, hr] at e2
+  exact ⟨_, e1, e2⟩
+
+/-- Reads interleaved anywhere in a history change no answer of the cached machine to a `load` or a
+`process` - although here they DO write hidden state (the entry cache, and memo entries stamped with
+the current generation: the shape of D45).  (C18.read_no_trace for the stateful value.) -/
+theorem cached_read_no_trace (plug : Registry → Plug) (opts : Opts) (h : List Goyang.Model.Op) :
+    (cachedRun plug opts h).2.filter (fun o => !o.isReadOut) =
+      (cachedRun plug opts (h.filter fun op => !op.isRead)).2 := by
+  have a := agreeAll_filter (cached_refines_session plug opts h).1
+  have b := agreeAll_filter (cached_refines_session plug opts (h.filter fun op => !op.isRead)).1
+  have c : (cachedRun plug opts (h.filter fun op => !op.isRead)).2.filter (fun o => !o.isReadOut) =
+      (cachedRun plug opts (h.filter fun op => !op.isRead)).2 := by
+    refine crun_no_reads _ _ _ ?_ _
+    intro op hop
+    obtain ⟨op0, h0, rfl⟩ := List.mem_map.mp hop
+    rw [embOp_isRead]
+    have := (List.mem_filter.mp h0).2
+    cases hr : op0.isRead with
+    | false => rfl
+    | true => rw [hr] at this; cases this
+  have d := (Goyang.Props.C18.read_no_trace plug opts h).1
+  rw [filter_map_embOut] at a b
+  rw [← d, List.filter_filter] at b
+  simp only [Bool.and_self] at b
+  rw [a, ← c, b]
 
 /-! ### every reset is needed: one flag off, and the machine does not refine
 
